@@ -11,6 +11,19 @@ func VerifSetup_KeyedPRNG(key []byte) *KeyedPRNG {
 	return p
 }
 
+// VerifSetup_KeyAfterWipe: the generator is keyed from a buffer that the caller then overwrites; returns Key().
+func VerifSetup_KeyAfterWipe(key []byte) []byte {
+	buf := append([]byte(nil), key...)
+	p, err := NewKeyedPRNG(buf)
+	if err != nil {
+		panic(err)
+	}
+	for i := range buf {
+		buf[i] = 0xAA
+	}
+	return p.Key()
+}
+
 func vBytesEq(a, b []byte) bool {
 	if len(a) != len(b) {
 		return false
@@ -30,6 +43,7 @@ func VerifH_C17_KeyedPRNG() {
 	k := p1.Key()
 	k[0] ^= 1
 	vAssert(vBytesEq(p1.Key(), key), "KeyedPRNG-Key-returns-a-copy")
+	vAssert(vBytesEq(VerifSetup_KeyAfterWipe(key), key), "KeyedPRNG-keeps-its-own-copy-of-the-seeding-key")
 	if !vSymbolic() {
 		p2 := VerifSetup_KeyedPRNG(p1.Key())
 		a, b := make([]byte, 96), make([]byte, 96)
